@@ -528,19 +528,24 @@ def gen(seed, n, mut_cap=24):
     return out[:n]
 
 
-def gen_exhaustive(maxlen=4, alphabet=b" \n\r$:|@#a{}=\t", contexts=None):
-    """every string over `alphabet` of length <= maxlen, placed (i) as a whole file, (ii) as
-    the tail of a variable value, (iii) as the tail of a build line after a valid rule.
+def gen_exhaustive(maxlen=4, alphabet=b" \n\r$:|@#a{}=\t^."):
+    """every string s over `alphabet` of length <= maxlen, placed (i) as a whole file, (ii) as
+    the tail of a build-block binding whose value is dumped, (iii) as the tail of the input
+    list of a build line, (iv) inside a rule's command followed by a build statement, (v) as
+    (ii) under ninja_required_version = 1.14 (for $^).
     Ties the hand-written scanners to the generated src/lexer.cc on short inputs."""
     import itertools
-    if contexts is None:
-        contexts = [b"", b"x = ", b"rule r\n command = c\nbuild "]
+    pre = b"rule r\n command = c\n"
     out = []
     for n in range(maxlen + 1):
         for t in itertools.product(alphabet, repeat=n):
             s = bytes(t)
-            for c in contexts:
-                out.append(scenario(b"build.ninja", [(b"build.ninja", c + s)]))
+            for text in (s,
+                         pre + b"build o: r\n description = " + s,
+                         pre + b"build o: r " + s,
+                         b"rule r\n command = " + s + b"\nbuild o: r i\n",
+                         b"ninja_required_version = 1.14\n" + pre + b"build o: r\n description = " + s):
+                out.append(scenario(b"build.ninja", [(b"build.ninja", text)]))
     return out
 
 
